@@ -108,7 +108,7 @@ func (fr *Frame) doCallCommon(ins ssa.Instruction, c *ssa.CallCommon, pc *string
 		}
 	}
 	vc.note("call to %s without contract: havoc of all heap state, result unconstrained", names[0])
-	saved := fr.saveCapturedCells(c, st)
+	saved := append(fr.saveCapturedCells(c, st), fr.saveStableCells(st)...)
 	vc.havocAllKeeping(st, fr.topFrame().privHeaps)
 	fr.restoreCells(st, saved)
 	return freshResults()
@@ -220,7 +220,7 @@ func (fr *Frame) applyContract(ins ssa.Instruction, fc *FuncContract, callee *ss
 		if !fc.HasMod {
 			vc.note("contract of %s has no modifies clause: treated as modifies *", fc.Key)
 		}
-		saved := fr.saveCapturedCells(c, st)
+		saved := append(fr.saveCapturedCells(c, st), fr.saveStableCells(st)...)
 		vc.havocAllKeeping(st, fr.topFrame().privHeaps)
 		fr.restoreCells(st, saved)
 	default:
@@ -444,6 +444,11 @@ func (fr *Frame) builtin(ins ssa.Instruction, b *ssa.Builtin, c *ssa.CallCommon,
 			_, _, card := d.mapHeaps(u)
 			n := vc.define("maplen", "Int", fmt.Sprintf("(ite (= %s 0) 0 (select %s %s))", args[0], vc.stGet(st, card), args[0]))
 			*pc = fr.assume(*pc, fmt.Sprintf("(>= %s 0)", n))
+			// cardinality and domain agree on emptiness
+			dom, _, _ := d.mapHeaps(u)
+			ks := d.sortOf(u.Key())
+			dm := fmt.Sprintf("(select %s %s)", vc.stGet(st, dom), args[0])
+			*pc = fr.assume(*pc, fmt.Sprintf("(and (=> (= %s 0) (forall ((kk %s)) (! (not (and (not (= %s 0)) (select %s kk))) :pattern ((select %s kk))))) (=> (> %s 0) (and (not (= %s 0)) (exists ((kk %s)) (select %s kk)))))", n, ks, args[0], dm, dm, n, args[0], ks, dm))
 			return []string{n}
 		case *types.Array:
 			return []string{fmt.Sprint(u.Len())}
@@ -527,7 +532,7 @@ func (fr *Frame) builtin(ins ssa.Instruction, b *ssa.Builtin, c *ssa.CallCommon,
 		}
 	}
 	vc.note("builtin %s abstracted", b.Name())
-	vc.havocAll(st)
+	fr.havocInterference(st)
 	if v, ok := ins.(ssa.Value); ok {
 		if _, isTup := v.Type().(*types.Tuple); !isTup {
 			n := vc.fresh(fr.prefix+"bi", d.sortOf(v.Type()))
@@ -574,7 +579,7 @@ func (fr *Frame) goStmt(x *ssa.Go, pc *string, st *State) {
 		}
 	}
 	vc.note("go statement: havoc of all heap state")
-	vc.havocAll(st)
+	fr.havocInterference(st)
 }
 
 // ---------------------------------------------------------------------------
@@ -615,7 +620,7 @@ func (fr *Frame) siteMatches(sa *SiteAction, ins ssa.Instruction) bool {
 		} else {
 			names = calleeNames(c)
 			if k := fieldCallKey(c.Value); k != "" {
-				names = append(names, k, "field:"+k[strings.LastIndex(k[:strings.LastIndex(k, ".")], ".")+1:])
+				names = append(names, k, "field."+k[strings.LastIndex(k[:strings.LastIndex(k, ".")], ".")+1:])
 			}
 		}
 		for _, n := range names {
@@ -651,6 +656,12 @@ func (fr *Frame) siteMatches(sa *SiteAction, ins ssa.Instruction) bool {
 			return false
 		}
 		return sa.Pattern == "*" || fr.valueDescr(s.Map) == sa.Pattern
+	case "lookup":
+		s, ok := ins.(*ssa.Lookup)
+		if !ok {
+			return false
+		}
+		return sa.Pattern == "*" || fr.valueDescr(s.X) == sa.Pattern
 	}
 	return false
 }
@@ -684,7 +695,7 @@ func (fr *Frame) valueDescr(v ssa.Value) string {
 	case *ssa.FreeVar:
 		return x.Name()
 	}
-	return ""
+	return fr.debugName(v)
 }
 
 func (fr *Frame) runSites(ins ssa.Instruction, when string, pc string, st *State, res []string) string {
@@ -808,6 +819,23 @@ func (fr *Frame) runSites(ins ssa.Instruction, when string, pc string, st *State
 			env.vars["key"] = tv{t: fr.v1(x.Key), ty: x.Key.Type()}
 			env.vars["value"] = tv{t: fr.v1(x.Value), ty: x.Value.Type()}
 			env.vars["target"] = tv{t: fr.v1(x.Map), ty: x.Map.Type()}
+		case *ssa.UnOp:
+			if x.Op.String() == "<-" {
+				if rv, ok := fr.vals[x]; ok && len(rv) > 0 {
+					rt := x.Type()
+					if tup, ok := rt.(*types.Tuple); ok {
+						rt = tup.At(0).Type()
+					}
+					env.vars["value"] = tv{t: rv[0], ty: rt}
+				}
+			}
+		case *ssa.Lookup:
+			if li := fr.lookupIn; li != nil {
+				env.vars["key"] = tv{t: li.key, ty: li.keyT}
+				env.vars["result0"] = tv{t: li.val, ty: li.valT}
+				env.vars["result"] = tv{t: li.val, ty: li.valT}
+				env.vars["result1"] = tv{t: li.ok, ty: tBool}
+			}
 		case *ssa.Send:
 			env.vars["value"] = tv{t: fr.v1(x.X), ty: x.X.Type()}
 		case *ssa.Return:
@@ -1075,4 +1103,121 @@ func (fr *Frame) namedValuesAtInstr(ins ssa.Instruction) map[string]ssa.Value {
 		}
 	}
 	return out
+}
+
+// havocInterference: havoc of the whole heap at a point where other goroutines / unknown code may have run, keeping
+// what nobody else can write: private arrays of this invocation and read-only captured variables.
+func (fr *Frame) havocInterference(st *State) {
+	top := fr.topFrame()
+	saved := fr.saveStableCells(st)
+	fr.vc.havocAllKeeping(st, top.privHeaps)
+	fr.restoreCells(st, saved)
+}
+
+// stableCells: address-taken locals of this function that are only captured by closures which never assign them, and
+// free variables of this closure never assigned by it or its nested closures: nobody but the owner's straight-line code
+// (tracked symbolically) writes them, so they survive interference.
+func (fr *Frame) saveStableCells(st *State) []savedCell {
+	if !fr.top {
+		return nil
+	}
+	var out []savedCell
+	add := func(l *Loc, t types.Type) {
+		if l == nil || l.opaque || l.heap == "" || l.local != "" {
+			return
+		}
+		if _, isStruct := isStructT(t); isStruct {
+			return
+		}
+		if _, isArr := t.Underlying().(*types.Array); isArr {
+			return
+		}
+		out = append(out, savedCell{l, fr.vc.define("cap", fr.vc.d.sortOf(t), fr.vc.loadLoc(st, l))})
+	}
+	for _, b := range fr.fn.Blocks {
+		for _, ins := range b.Instrs {
+			a, ok := ins.(*ssa.Alloc)
+			if !ok || fr.privAlloc[a] {
+				continue
+			}
+			if _, done := fr.vals[a]; !done {
+				continue
+			}
+			if readOnlyCaptured(a) {
+				add(fr.locOf(a), a.Type().Underlying().(*types.Pointer).Elem())
+			}
+		}
+	}
+	for _, fv := range fr.fn.FreeVars {
+		pt, ok := fv.Type().Underlying().(*types.Pointer)
+		if !ok {
+			continue
+		}
+		if !closureWrites(fr.fn, fv) {
+			// also requires that the defining function / sibling closures do not write it concurrently: checked for the
+			// binding alloc when available
+			add(fr.locOf(fv), pt.Elem())
+		}
+	}
+	return out
+}
+
+// readOnlyCaptured: alloc a is used only by loads, stores (by the owner) and as a closure binding, and no capturing
+// closure stores to it.
+func readOnlyCaptured(a *ssa.Alloc) bool {
+	refs := a.Referrers()
+	if refs == nil {
+		return false
+	}
+	captured := false
+	for _, r := range *refs {
+		switch x := r.(type) {
+		case *ssa.Store:
+			if x.Val == ssa.Value(a) {
+				return false
+			}
+		case *ssa.UnOp, *ssa.DebugRef:
+		case *ssa.MakeClosure:
+			captured = true
+			fn := x.Fn.(*ssa.Function)
+			for i, bnd := range x.Bindings {
+				if bnd == ssa.Value(a) && closureWrites(fn, fn.FreeVars[i]) {
+					return false
+				}
+			}
+		default:
+			return false
+		}
+	}
+	return captured
+}
+
+// closureWrites: does fn (or a closure nested in it that captures the same variable) store to free variable fv?
+func closureWrites(fn *ssa.Function, fv *ssa.FreeVar) bool {
+	refs := fv.Referrers()
+	if refs == nil {
+		return false
+	}
+	for _, r := range *refs {
+		switch x := r.(type) {
+		case *ssa.Store:
+			if x.Addr == ssa.Value(fv) {
+				return true
+			}
+			if x.Val == ssa.Value(fv) {
+				return true
+			}
+		case *ssa.UnOp, *ssa.DebugRef:
+		case *ssa.MakeClosure:
+			sub := x.Fn.(*ssa.Function)
+			for i, bnd := range x.Bindings {
+				if bnd == ssa.Value(fv) && closureWrites(sub, sub.FreeVars[i]) {
+					return true
+				}
+			}
+		default:
+			return true
+		}
+	}
+	return false
 }
